@@ -3,6 +3,35 @@ from .. import jobtask, jobrules
 from ..report import Skip
 
 
+def stop_plumbing(ctx, rule):
+    """--stop-timeout / --stop-signal as parsed are what the CLI's graceful restart and graceful quit use (shared with C05)"""
+    from .. import thir, pathx
+    from ..facts import strip_generics
+    ca = ctx.facts.find_adt("watchexec_cli::args::command::CommandArgs")
+    st = [f for f in (ca["variants"][0]["fields"] if ca else []) if f["name"] == "stop_timeout"]
+    ts = ctx.facts.find_adt("watchexec_cli::args::TimeSpan")
+    ctx.require(bool(st) and st[0]["ty"] == "watchexec_cli::args::TimeSpan", rule, "stop-timeout-unit", "--stop-timeout is TimeSpan with the default multiplier: unit-less = seconds",
+                detail=st[0]["ty"] if st else "", fail="--stop-timeout no longer reads unit-less values as seconds (%s): the grace period is a thousand times shorter than asked" % (st[0]["ty"] if st else "field missing"))
+    mk = ctx.anchor_fn(rule, "watchexec_cli::config::make_config")
+    lets = {}
+    for s_ in thir.walk(thir.root(mk)):
+        if isinstance(s_, dict) and s_.get("k") == "let" and s_["p"].get("k") == "bind" and isinstance(s_.get("i"), dict) and s_["p"]["n"] in ("stop_timeout", "stop_signal"):
+            lets[s_["p"]["n"]] = pathx.desc(s_["i"])
+    ctx.require(lets == {"stop_timeout": "args.command.stop_timeout.0", "stop_signal": "args.command.stop_signal"}, rule, "stop-options-read", "the handler's grace and signal are the parsed options",
+                mk.loc(mk.line), detail=str(lets))
+    uses = []
+    for g in ctx.facts.descendants(mk):
+        for c, nd in thir.calls_in(thir.root(g)):
+            if strip_generics(c).endswith(("Job::restart_with_signal", "Handler::quit_gracefully")) and not pathx.is_tracing(nd):
+                uses.append((strip_generics(c).split("::")[-1], [pathx.desc(a).replace("^", "") for a in nd["a"][1:]]))
+    want = {("restart_with_signal", ("Option::unwrap_or(stop_signal, Terminate)", "stop_timeout")), ("quit_gracefully", ("Option::unwrap_or(stop_signal, Terminate)", "stop_timeout")),
+            ("quit_gracefully", ("ForceStop", "ZERO"))}
+    got = {(n, tuple(a)) for n, a in uses}
+    ctx.require(got == want, rule, "stop-options-used", "graceful restart and graceful quit use (stop signal or SIGTERM, stop timeout); only the second quit request forces",
+                mk.loc(mk.line), detail=str(sorted(got))[:300], fail="the CLI passes something other than (--stop-signal or SIGTERM, --stop-timeout) as signal and grace: %s" % str(sorted(got - want))[:200])
+
+
+
 def run(ctx):
     ctx.level = "other"
     ctx.undecided = ("actual signal delivery and timer accuracy (tokio sleep_until, the OS); 'immediately' and 'when the grace period "
@@ -18,6 +47,8 @@ def run(ctx):
     ctx.rule("R06.6", "signal_child maps the Signal with to_nix(), falls back to SIGTERM, and sends it to the child; it never kills")
     ctx.rule("R06.8", "the signal delivered is the one requested: Signal::to_nix maps every first-class signal to the nix signal of its POSIX "
                       "number (table shared with C19 R19.1)")
+    ctx.rule("R06.9", "CLI plumbing of the grace period: --stop-timeout is a TimeSpan with the default unit (unit-less = seconds), its duration is what the "
+                      "action handler passes as the grace of restart_with_signal and of the graceful quit, with --stop-signal (or SIGTERM) as the signal")
     ctx.rule("R06.7", "restart_with_signal = [GracefulStop, Start] and stop_with_signal = [GracefulStop] on the normal queue")
     api = {}
     try:
@@ -56,5 +87,9 @@ def run(ctx):
                                 fail="%s does not send the control's signal first (%s)" % (name, " ".join(eff)))
         jobrules.recv_gating(ctx, B)
         jobrules.coupling_invariant(ctx, B, api)
+    except Skip:
+        pass
+    try:
+        stop_plumbing(ctx, "R06.9")
     except Skip:
         pass
